@@ -409,11 +409,18 @@ def gen_expansion_case(rng):
     else:
         n = 5 if kind == "qmac" else 3
         types = [rng.choice(TYPES) for _ in range(n)]
-    return {"kind": kind, "types": types, "params": None, "form": form}
+    case = {"kind": kind, "types": types, "params": None, "form": form}
+    if rng.random() < 0.15:
+        # a fused body: the kernel op is followed by further arithmetic on its result (must survive the expansion)
+        case["tail"] = rng.choice(["arith.addi", "arith.subi", "arith.muli"])
+    return case
 
 
 def render_expansion(case) -> str:
     args, line = kernel_line(case["kind"], case["types"], case.get("params"))
+    if case.get("tail"):
+        t = args[-1]
+        return render_module(args, [line, f"%k2 = {case['tail']} %k, %k : {t}", f"%k3 = {case['tail']} %k2, %k : {t}", f"linalg.yield %k3 : {t}"], case.get("form", "memref"))
     return render_module(args, [line, f"linalg.yield %k : {args[-1]}"], case.get("form", "memref"))
 
 
